@@ -350,10 +350,18 @@ def isRedundant (within : Lookup) (rules : List RuleM) (clusters : List PC) (pc 
   let rule ← findRule rules pc.rule
   redundantOuter within clusters pc first last rule.superiors
 
+/-- keep the elements for which the test says `true` (in order; the first error wins) -/
+def filterE {α : Type} (p : α → E Bool) : List α → E (List α)
+  | [] => pure []
+  | a :: l => do
+    let b ← p a
+    let rest ← filterE p l
+    pure (if b then a :: rest else rest)
+
 def removeRedundant (within : Lookup) (rules : List RuleM) (clusters : List PC) : E (List PC) :=
-  clusters.filterM fun pc => do
+  filterE (fun pc => do
     let red ← isRedundant within rules clusters pc
-    pure (!red)
+    pure (!red)) clusters
 
 /-! ### `merge_over_origin` (merging to a fixpoint) -/
 
